@@ -59,6 +59,24 @@ func (e *Enc) encodeCall(fr *frame, st *bstate, res ssa.Value, call *ssa.CallCom
 	if callee == nil {
 		// dynamic call through a function value / closure
 		e.oblige(st, "nil", e.anchor(pos, "call func value"), sNot(sEq(e.asTerm(e.val(call.Value)), "0")), pos)
+		// a function stored in a struct field may have a contract attached to that field
+		// ("func Type.field"): an assumption about every function ever stored there
+		if ld, ok := call.Value.(*ssa.UnOp); ok && ld.Op == token.MUL {
+			if fa, ok := ld.X.(*ssa.FieldAddr); ok {
+				if pt, ok := fa.X.Type().Underlying().(*types.Pointer); ok {
+					if named, ok := types.Unalias(pt.Elem()).(*types.Named); ok && named.Obj().Pkg() != nil {
+						stt := named.Underlying().(*types.Struct)
+						key := named.Obj().Pkg().Path() + "#" + named.Obj().Name() + "." + stt.Field(fa.Field).Name()
+						if c := e.P.reg.Contracts[key]; c != nil {
+							e.curCallArgs = ssaArgs
+							e.externs[key+" (contract assumed of every function stored in this field)"] = true
+							bind(e.applyFieldFuncContract(fr, st, c, call.Signature(), args, resType, pos))
+							return
+						}
+					}
+				}
+			}
+		}
 		e.unknownCall(st, "func-value:"+call.Value.Type().String(), pos)
 		bind(e.freshVal(st, resType, "dyn"))
 		return
@@ -116,6 +134,10 @@ func ifaceMethodKey(recv types.Type, m *types.Func) string {
 
 func (e *Enc) unknownCall(st *bstate, key string, pos token.Pos) {
 	e.unmod[key] = true
+	if e.C != nil && e.C.HasMod && e.depth >= 0 {
+		// a call about which nothing is known may write anything: it cannot respect a declared frame
+		e.oblige(st, "frame", "unmodelled call "+key, "false", pos)
+	}
 	e.havocAll(st, key)
 }
 
@@ -859,4 +881,13 @@ func (e *Enc) modifiesOnlyFresh(st, pre *bstate, c *Contract, argName string, mk
 		nv := e.newHeapVersion(st, comp)
 		e.assert(fmt.Sprintf("(forall ((r Int)) (! (=> (and (<= (root r) %s) (not (= (root r) (root %s)))) (= (select %s r) (select %s r))) :pattern ((select %s r))))", allocPre, target, nv, old, nv))
 	}
+}
+
+// applyFieldFuncContract applies a contract attached to a function-typed struct field.
+func (e *Enc) applyFieldFuncContract(fr *frame, st *bstate, c *Contract, sig *types.Signature, args []Val, resType types.Type, pos token.Pos) Val {
+	// reuse applyContract through a synthetic method-like view: parameter names arg0..argN
+	m := types.NewFunc(token.NoPos, nil, "fieldfunc", sig)
+	// applyContract expects args[0] to be the receiver for methods: prepend a dummy
+	dummy := Val{T: "0", Typ: types.Typ[types.Int]}
+	return e.applyContract(fr, st, c, nil, m, append([]Val{dummy}, args...), resType, pos)
 }
